@@ -10,6 +10,7 @@ RULE = ("random DAG programs (3-40 instructions, 1-6 leaves, any subset requirin
         "random linear extensions of its dependency order and leaf gradients must agree to 1e-10; a second backward over the same graph must double every leaf gradient; BackwardTrace checks exactly-once "
         "invocation and consumer-before-operand order in every sweep; distinct key = structural hash (ops + wiring); non-trivial = at least "
         "one value consumed more than once or one op using a tensor twice, and >= 5 instructions")
+RULE += (' Added after the seeded rounds: layer templates whose parameters are program leaves (bias exactly zero half of the time), conv1d with bias, dilated constant convolutions, inference-then-training batch norm, cross-entropy, operand lists cleared after concat/stack, a constant advanced by += / *= after the op that used it.')
 ASSUMPTIONS = ["FD reference differentiates the library's own float64 forward of the whole program",
                "piecewise-linear ops (relu, max) are only generated with a 0.05 margin from their kinks; ties are C01/C02's business",
                "values are kept below 50 in magnitude by construction so that FD is well conditioned"]
